@@ -653,7 +653,7 @@ func TestC30(t *testing.T) {
 	for k, v := range cnt {
 		run.Count(k, v)
 	}
-	if run.Violations() == 0 {
+	{
 		for _, k := range []string{
 			"polls_ok_compared", "inits_ok", "fork_callbacks", "fork_depth_1_seen", "fork_depth_mem_minus_1_seen", "fork_depth_mem_seen",
 			"reorg_deeper_than_memory_ops", "polls_after_deeper_fork_no_panic", "gap_and_fork_in_one_poll", "gap_beyond_memory",
